@@ -179,7 +179,8 @@ def run_shard(ctx):
             q = gq.random_query(rng, core, max_size=3)
             if q is None:
                 continue
-            gd, _pad = gg.embed_wide(core, rng, rng.randint(10, 16))
+            # one in four beyond 48 nodes: a small core (bow arcs and all) far inside a graph of bystanders
+            gd, _pad = gg.embed_wide(core, rng, rng.randint(10, 16) if rng.random() < 0.75 else rng.randint(49, 72))
         else:
             gd = gg.random_admg(rng, rng.randint(10, 16), hostile=rng.choice(["none", "bow", "bichain", "isolated"]),
                                 p_di=rng.choice((0.1, 0.2, 0.3)), p_bi=rng.choice((0.05, 0.1, 0.2)))
@@ -187,7 +188,7 @@ def run_shard(ctx):
             if q is None:
                 continue
         nwide += 1
-        run_case(ctx, gg.to_nx(gd), gd, q, via=rng.choice(("outcomes", "identify", "single", "from_parts", "raw-graph")))
+        run_case(ctx, gg.to_nx(gd), gd, q, via=rng.choice(("outcomes", "identify", "single", "from_parts", "raw-graph", "str-graph", "str-graph-identify")))
     ctx.extras["wide_graphs"] = nwide
     # very large sparse graphs (64..160 nodes): still only a verdict to compare
     nhuge = 0
@@ -199,7 +200,7 @@ def run_shard(ctx):
             if q is None:
                 continue
             nhuge += 1
-            run_case(ctx, g, gd, q, via=rng.choice(("outcomes", "identify")), gkey=gg.key(gd)[:200] + f"|huge{len(gd['di'])}")
+            run_case(ctx, g, gd, q, via=rng.choice(("outcomes", "identify", "str-graph", "str-graph-identify", "raw-graph")), gkey=gg.key(gd)[:200] + f"|huge{len(gd['di'])}")
     ctx.extras["huge_sparse_cases"] = nhuge
     # histories on one shared graph object
     for _ in range(ctx.share({"quick": 48, "thorough": 1200}[ctx.tier])):
